@@ -621,101 +621,101 @@ func c18InsertAtomic(c *core.Ctx) {
 	const tp = "chain/txpool"
 	idx := c.FieldVar(tp+".TxPool", "hashIndexMap")
 	txs := c.FieldVar(tp+".TxPool", "txs")
-		// add: whoever inserts into the index does it for a transaction that was tested not to be there, under the same hold of the pool's
-		// mutex as the test, and indexes the sub transactions of a box as well. The insert may live in addTx or in a helper split off it.
-		exist := c.Method(tp+".TxPool", "isTxExist")
-		sub := c.FuncObj(tp + ".getSubTxs")
-		rwF := c.FieldVar(tp+".TxPool", "RW")
-		isUnlock := func(in ssa.Instruction) bool {
-			ci, ok := in.(*ssa.Call)
-			if !ok {
-				return false
-			}
-			o := core.CalleeObj(ci)
-			if o == nil || (o.Name() != "Unlock" && o.Name() != "RUnlock") || len(ci.Call.Args) == 0 {
-				return false
-			}
-			return core.SliceHasField(core.Slice(ci.Call.Args[0]), rwF)
-		}
-		unlockBetween := func(from, to ssa.Instruction) bool {
-			fn := from.Parent()
-			for _, bb := range fn.Blocks {
-				for _, in := range bb.Instrs {
-					if isUnlock(in) && core.ReachableAfter(from, in) && core.ReachableAfter(in, to) {
-						return true
-					}
-				}
-			}
+	// add: whoever inserts into the index does it for a transaction that was tested not to be there, under the same hold of the pool's
+	// mutex as the test, and indexes the sub transactions of a box as well. The insert may live in addTx or in a helper split off it.
+	exist := c.Method(tp+".TxPool", "isTxExist")
+	sub := c.FuncObj(tp + ".getSubTxs")
+	rwF := c.FieldVar(tp+".TxPool", "RW")
+	isUnlock := func(in ssa.Instruction) bool {
+		ci, ok := in.(*ssa.Call)
+		if !ok {
 			return false
 		}
-		// guardedAt: on every path to `at` in its function an accepting isTxExist ran and the mutex was not released since; when the
-		// function holds no such test, every caller must provide it before the call (depth-bounded)
-		var guardedAt func(at ssa.Instruction, depth int) (bool, string)
-		guardedAt = func(at ssa.Instruction, depth int) (bool, string) {
-			fn := at.Parent()
-			why := "no existence test on the way"
-			for _, g := range core.CallsIn(fn, exist) {
-				if h, w := core.HeededBefore(g, core.IsTrue, at); h {
-					if unlockBetween(g, at) {
-						return false, "the pool's mutex is released between the existence test and the insert (another goroutine can insert the same transaction in between)"
-					}
-					return true, ""
-				} else {
-					why = w
-				}
-			}
-			fo, _ := fn.Object().(*types.Func)
-			if fo == nil || depth >= 2 {
-				return false, why
-			}
-			_, sites := callersOf(c, fo)
-			if len(sites) == 0 {
-				return false, why
-			}
-			for _, cs := range sites {
-				if ok, w := guardedAt(cs.Instr, depth+1); !ok {
-					return false, shortFn(cs.Caller) + ": " + w
-				}
-			}
-			return true, ""
+		o := core.CalleeObj(ci)
+		if o == nil || (o.Name() != "Unlock" && o.Name() != "RUnlock") || len(ci.Call.Args) == 0 {
+			return false
 		}
-		nIns := 0
-		for _, fn := range c.SrcFuncs {
-			if core.RelPkg(fn) != tp || isTestHelper(c, fn) {
+		return core.SliceHasField(core.Slice(ci.Call.Args[0]), rwF)
+	}
+	unlockBetween := func(from, to ssa.Instruction) bool {
+		fn := from.Parent()
+		for _, bb := range fn.Blocks {
+			for _, in := range bb.Instrs {
+				if isUnlock(in) && core.ReachableAfter(from, in) && core.ReachableAfter(in, to) {
+					return true
+				}
+			}
+		}
+		return false
+	}
+	// guardedAt: on every path to `at` in its function an accepting isTxExist ran and the mutex was not released since; when the
+	// function holds no such test, every caller must provide it before the call (depth-bounded)
+	var guardedAt func(at ssa.Instruction, depth int) (bool, string)
+	guardedAt = func(at ssa.Instruction, depth int) (bool, string) {
+		fn := at.Parent()
+		why := "no existence test on the way"
+		for _, g := range core.CallsIn(fn, exist) {
+			if h, w := core.HeededBefore(g, core.IsTrue, at); h {
+				if unlockBetween(g, at) {
+					return false, "the pool's mutex is released between the existence test and the insert (another goroutine can insert the same transaction in between)"
+				}
+				return true, ""
+			} else {
+				why = w
+			}
+		}
+		fo, _ := fn.Object().(*types.Func)
+		if fo == nil || depth >= 2 {
+			return false, why
+		}
+		_, sites := callersOf(c, fo)
+		if len(sites) == 0 {
+			return false, why
+		}
+		for _, cs := range sites {
+			if ok, w := guardedAt(cs.Instr, depth+1); !ok {
+				return false, shortFn(cs.Caller) + ": " + w
+			}
+		}
+		return true, ""
+	}
+	nIns := 0
+	for _, fn := range c.SrcFuncs {
+		if core.RelPkg(fn) != tp || isTestHelper(c, fn) {
+			continue
+		}
+		var stores []ssa.Instruction
+		for _, b := range fn.Blocks {
+			for _, in := range b.Instrs {
+				if mu, ok := in.(*ssa.MapUpdate); ok && core.SliceHasField(core.Slice(mu.Map), idx) {
+					stores = append(stores, mu)
+				}
+			}
+		}
+		if len(stores) == 0 {
+			continue
+		}
+		nIns += len(stores)
+		name := shortFn(fn)
+		ok, why := true, ""
+		for _, st := range stores {
+			// re-indexing what the pool already holds (a key computed from an element of pool.txs, not from a parameter) is not an add
+			ksl := core.Slice(st.(*ssa.MapUpdate).Key)
+			fromParam := false
+			for _, q := range fn.Params[1:] {
+				if ksl[q] {
+					fromParam = true
+				}
+			}
+			if !fromParam && core.SliceHasField(ksl, txs) {
 				continue
 			}
-			var stores []ssa.Instruction
-			for _, b := range fn.Blocks {
-				for _, in := range b.Instrs {
-					if mu, ok := in.(*ssa.MapUpdate); ok && core.SliceHasField(core.Slice(mu.Map), idx) {
-						stores = append(stores, mu)
-					}
-				}
+			if g, w := guardedAt(st, 0); !g {
+				ok, why = false, w
 			}
-			if len(stores) == 0 {
-				continue
-			}
-			nIns += len(stores)
-			name := shortFn(fn)
-			ok, why := true, ""
-			for _, st := range stores {
-				// re-indexing what the pool already holds (a key computed from an element of pool.txs, not from a parameter) is not an add
-				ksl := core.Slice(st.(*ssa.MapUpdate).Key)
-				fromParam := false
-				for _, q := range fn.Params[1:] {
-					if ksl[q] {
-						fromParam = true
-					}
-				}
-				if !fromParam && core.SliceHasField(ksl, txs) {
-					continue
-				}
-				if g, w := guardedAt(st, 0); !g {
-					ok, why = false, w
-				}
-			}
-			c.Check("index-insert@"+name+":after-existence-test-under-one-hold", "guarded-action", ok, stores[0].Pos(), "%s inserts into hashIndexMap; every path to the insert passes an accepting isTxExist with the pool's mutex held since: %s", name, orOK(why))
-			c.Check("index-insert@"+name+":expands-box", "sibling-agreement", len(core.CallsIn(fn, sub)) >= 1, fn.Pos(), "%s indexes a transaction; it must index the sub transactions of a box too (getSubTxs), as delTx and isTxExist look them up", name)
 		}
-		c.Floor("index-inserts", nIns, 2)
+		c.Check("index-insert@"+name+":after-existence-test-under-one-hold", "guarded-action", ok, stores[0].Pos(), "%s inserts into hashIndexMap; every path to the insert passes an accepting isTxExist with the pool's mutex held since: %s", name, orOK(why))
+		c.Check("index-insert@"+name+":expands-box", "sibling-agreement", len(core.CallsIn(fn, sub)) >= 1, fn.Pos(), "%s indexes a transaction; it must index the sub transactions of a box too (getSubTxs), as delTx and isTxExist look them up", name)
+	}
+	c.Floor("index-inserts", nIns, 2)
 }
